@@ -68,7 +68,7 @@ def absorb(v, res, rule, level_keys=True):
     v.coverage["evaluations"] = v.coverage.get("evaluations", 0) + st.get("evaluations", 0)
     v.coverage["distinct_nontrivial"] = v.coverage.get("distinct_nontrivial", 0) + st.get("distinct_nontrivial", 0)
     v.coverage["rule"] = rule
-    v.coverage.setdefault("samples", []).extend(res.get("samples", []))
+    v.coverage.setdefault("samples", []).extend(res.get("samples") or [])
     v.coverage.setdefault("distribution", {}).update({k: n for k, n in st.items() if k not in ("evaluations", "distinct_nontrivial")})
     for viol in (res.get("violations") or []):
         v.violation(viol["signature"], viol["what"], viol["replay"])
